@@ -194,10 +194,10 @@ class IntervalTree:
                      if IntervalTree.interval_contains(interval, point)]
 
         if point < node.center_point and node.left is not None:
-            intervals.extend(self._query_point(point, node))
+            intervals.extend(self._query_point(point, node.left))
 
         if point > node.center_point and node.right is not None:
-            intervals.extend(self._query_point(point, node))
+            intervals.extend(self._query_point(point, node.right))
 
         return intervals
 
